@@ -304,10 +304,19 @@ func (j *judge) targets(s c06.Slot) bool {
 
 // clauses 1 and 2 on a snapshot taken after the operation (view: "after restart" / "on the same handle")
 func (j *judge) clauses(pre, post snap, slots []c06.Slot, view string) {
+	j.clausesAlt(pre, nil, post, slots, view)
+}
+
+// clausesAlt: alt (may be nil) is a second admissible "before" for current keys – what the storage held when the
+// handle under test read through a cache that lagged behind it (the cache may catch up at any read: eviction)
+func (j *judge) clausesAlt(pre snap, alt *snap, post snap, slots []c06.Slot, view string) {
 	f, op, sc := fmtName(j.sc.Format), j.op, j.sc
+	same := func(s c06.Slot) bool {
+		return post.cur[s] == pre.cur[s] || (alt != nil && post.cur[s] == alt.cur[s])
+	}
 	// ---- clause 1: every key readable before still reads with the same value
 	for _, s := range slots {
-		if !j.targets(s) && post.cur[s] != pre.cur[s] {
+		if !j.targets(s) && !same(s) {
 			j.fails("other-key-changed:"+f, "%s changed the current key of %v (%s): %s → %s", j.where(), s, view, pre.cur[s], post.cur[s])
 		}
 		if !s.HasAll() {
@@ -345,6 +354,9 @@ func (j *judge) clauses(pre, post snap, slots []c06.Slot, view string) {
 			if s.IsPair() {
 				okSet = map[string]bool{pre.cur[s]: true, newID + "/" + newID: true}
 			}
+			if alt != nil {
+				okSet[alt.cur[s]] = true
+			}
 			if !okSet[post.cur[s]] {
 				class := "current-corrupt:" + f
 				if s.IsPair() && sc.Format == c06.V1 && strings.HasPrefix(post.cur[s], newID+"/") {
@@ -365,7 +377,7 @@ func (j *judge) clauses(pre, post snap, slots []c06.Slot, view string) {
 				j.fails("current-corrupt:"+f, "after %s the imported key of %v reads %s (%s; before: %s, new: %s): neither the old nor completely the new key", j.where(), s, got, view, old, newID)
 			}
 		case "dc":
-			if post.cur[s] != pre.cur[s] && post.cur[s] != "err" {
+			if !same(s) && post.cur[s] != "err" {
 				class := "current-corrupt:" + f
 				if s.IsPair() && sc.Format == c06.V1 {
 					class = "v1:key-pair-half-destroyed"
@@ -373,7 +385,7 @@ func (j *judge) clauses(pre, post snap, slots []c06.Slot, view string) {
 				j.fails(class, "after %s the current key of %v reads %s (%s; before: %s): neither intact nor absent", j.where(), s, post.cur[s], view, pre.cur[s])
 			}
 		case "dr":
-			if post.cur[s] != pre.cur[s] {
+			if !same(s) {
 				j.fails("current-corrupt:"+f, "%s changed the current key of %v (%s): %s → %s", j.where(), s, view, pre.cur[s], post.cur[s])
 			}
 		}
@@ -612,7 +624,7 @@ func RunScenario(sc Scenario) Result {
 				panic("harness: same-handle follow-ups are not defined for imports")
 			}
 			// what the running process reads right after the failed operation
-			j.clauses(preSame, takeSnap(r, slots, true), slots, "same handle, before restart")
+			j.clausesAlt(preSame, &pre, takeSnap(r, slots, true), slots, "same handle, before restart")
 			for i, t := range sc.Same {
 				fop, ok := c06.ParseOp(t)
 				if !ok {
